@@ -5,6 +5,7 @@ homomorphism onto the SI-level specification (`Sim`), for all valid unit systems
 import Strengths.Proofs.Units
 import Strengths.Model.UnitsArith
 import Mathlib.Tactic.Ring
+import Mathlib.Data.Int.GCD
 
 namespace Strengths
 set_option linter.unusedSimpArgs false
@@ -210,6 +211,205 @@ theorem inv_sim (a : Operand) (ha : a.wf) : Sim a.inv (siInv (siOf a)) := by
     have hx : x.u.sys.valid = true := ha
     by_cases h0 : 0 ∈ x.vs <;> si_simp <;> si_done
 
+/-! ### `**` -/
+
+theorem raiseDim_ok_iff (d : Int) (e : Rat) (m : Int) :
+    raiseDim d e = .ok m ↔ (d : Rat) * e = m := by
+  unfold raiseDim
+  constructor
+  · intro h
+    split at h
+    · cases h
+    · rename_i h0
+      cases h
+      have := not_not.mp h0
+      exact sub_eq_zero.mp this
+  · intro h
+    have ht : ratTrunc ((d : Rat) * e) = m := by
+      rw [h]; unfold ratTrunc
+      split
+      · exact Rat.floor_intCast m
+      · have : (-(m : Rat)) = ((-m : Int) : Rat) := by push_cast; rfl
+        rw [this, Rat.floor_intCast]; omega
+    rw [ht, h]; simp
+
+theorem raiseDim_error (d : Int) (e : Rat) {er : Err} (h : raiseDim d e = .error er) :
+    ((d : Rat) * e).den ≠ 1 := by
+  intro hden
+  have := (raiseDim_ok_iff d e ((d : Rat) * e).num).2 (Rat.coe_int_num_of_den_eq_one hden).symm
+  rw [this] at h; cases h
+
+theorem raiseto_ok_iff (u : Units) (e : Rat) (u' : Units) :
+    u.raiseto e = .ok u' ↔
+      u'.sys = u.sys ∧ (u.dim.space : Rat) * e = u'.dim.space ∧ (u.dim.time : Rat) * e = u'.dim.time ∧
+        (u.dim.qty : Rat) * e = u'.dim.qty := by
+  unfold Units.raiseto
+  constructor
+  · intro h
+    split at h
+    · cases h
+    · rename_i a ha
+      split at h
+      · cases h
+      · rename_i b hb
+        split at h
+        · cases h
+        · rename_i c hc
+          cases h
+          exact ⟨rfl, (raiseDim_ok_iff _ _ _).1 ha, (raiseDim_ok_iff _ _ _).1 hb, (raiseDim_ok_iff _ _ _).1 hc⟩
+  · rintro ⟨hs, h1, h2, h3⟩
+    rw [(raiseDim_ok_iff _ _ _).2 h1, (raiseDim_ok_iff _ _ _).2 h2, (raiseDim_ok_iff _ _ _).2 h3]
+    cases u' with | mk s d => cases d; simp_all
+
+/-- the code's `raiseto` and the specification's `dimPow` define the same partial function -/
+theorem raiseto_dimPow (u : Units) (e : Rat) :
+    (∀ u', u.raiseto e = .ok u' → dimPow u.dim e = some u'.dim) ∧
+    (∀ er, u.raiseto e = .error er → dimPow u.dim e = none) := by
+  constructor
+  · intro u' h
+    obtain ⟨_, h1, h2, h3⟩ := (raiseto_ok_iff u e u').1 h
+    simp only [dimPow, h1, h2, h3, Rat.den_intCast, Rat.num_intCast, and_self, if_true]
+  · intro er h
+    unfold Units.raiseto at h
+    simp only [dimPow]
+    split at h
+    · rename_i er' h1
+      have := raiseDim_error _ _ h1
+      simp [this]
+    · split at h
+      · rename_i er' h2
+        have := raiseDim_error _ _ h2
+        simp [this]
+      · split at h
+        · rename_i er' h3
+          have := raiseDim_error _ _ h3
+          simp [this]
+        · cases h
+
+/-- if `d · e` is an integer `m` then the (reduced) denominator `q` of `e = p/q` divides `d`: `d = c·q`, `m = c·p` -/
+theorem den_dvd_of_mul_int (d m : Int) (e : Rat) (h : (d : Rat) * e = m) :
+    ∃ c : Int, d = c * e.den ∧ m = c * e.num := by
+  have hq : (e.den : Rat) ≠ 0 := by exact_mod_cast e.den_nz
+  have he : e = (e.num : Rat) / (e.den : Rat) := (Rat.num_div_den e).symm
+  have h1 : (d : Rat) * e.num = m * e.den := by
+    rw [he] at h
+    field_simp at h
+    rw [h]; ring
+  have h2 : d * e.num = m * (e.den : Int) := by exact_mod_cast h1
+  have hg : Int.gcd (e.den : Int) e.num = 1 := by
+    have := e.reduced
+    simpa [Int.gcd, Nat.Coprime, Nat.gcd_comm] using this
+  have hd : (e.den : Int) ∣ d :=
+    Int.dvd_of_dvd_mul_left_of_gcd_one ⟨m, by rw [h2]; ring⟩ hg
+  obtain ⟨c, hc'⟩ := hd
+  refine ⟨c, by rw [hc']; ring, ?_⟩
+  have hq' : (e.den : Int) ≠ 0 := by exact_mod_cast e.den_nz
+  have : (e.den : Int) * (c * e.num) = (e.den : Int) * m := by
+    rw [hc'] at h2; rw [← mul_assoc, h2]; ring
+  exact (mul_left_cancel₀ hq' this).symm
+
+/-- when `dim · e` is the integer vector `m` (`e = p/q` in lowest terms), the SI size of the unit is a perfect
+`q`-th power `y^q`, and the SI size of the resulting unit is `y^p` -/
+theorem siFactor_root {U : Sys} (hU : U.valid = true) (d m : Dim) (e : Rat)
+    (h1 : (d.space : Rat) * e = m.space) (h2 : (d.time : Rat) * e = m.time) (h3 : (d.qty : Rat) * e = m.qty) :
+    ∃ y : Rat, 0 < y ∧ siFactor U d = y ^ e.den ∧ siFactor U m = y ^ e.num := by
+  obtain ⟨c1, hd1, hm1⟩ := den_dvd_of_mul_int _ _ _ h1
+  obtain ⟨c2, hd2, hm2⟩ := den_dvd_of_mul_int _ _ _ h2
+  obtain ⟨c3, hd3, hm3⟩ := den_dvd_of_mul_int _ _ _ h3
+  refine ⟨siFactor U ⟨c1, c2, c3⟩, siFactor_pos hU _, ?_, ?_⟩
+  · simp only [siFactor, hd1, hd2, hd3, zpow_mul, zpow_natCast, mul_pow]
+  · simp only [siFactor, hm1, hm2, hm3, zpow_mul, mul_zpow]
+
+/-- the float power of a positive base, as far as the homomorphism needs it, for one exponent `e = p/q`:
+perfect `q`-th powers come out of the root, `(x · y^q)^e = x^e · y^p` -/
+def PowScale (pyPow : Rat → Rat → Rat) (e : Rat) : Prop :=
+  ∀ x y : Rat, 0 < x → 0 < y → pyPow (x * y ^ e.den) e = pyPow x e * y ^ e.num
+
+/-- `powVal` (the value part of `**`) commutes with scaling by a perfect power; the contract is needed only for a
+non-integer exponent -/
+theorem powVal_scale (pyPow : Rat → Rat → Rat) (v e : Rat) {y : Rat} (hy : 0 < y)
+    (hs : e.den ≠ 1 → PowScale pyPow e) :
+    powVal pyPow (v * y ^ e.den) e =
+      match powVal pyPow v e with
+      | .error er => .error er
+      | .ok w => .ok (w * y ^ e.num) := by
+  have hyq : 0 < y ^ e.den := pow_pos hy _
+  have h0 : v * y ^ e.den = 0 ↔ v = 0 := by
+    constructor
+    · intro h; rcases mul_eq_zero.1 h with h | h
+      · exact h
+      · exact absurd h (ne_of_gt hyq)
+    · intro h; rw [h, zero_mul]
+  have hneg : v * y ^ e.den < 0 ↔ v < 0 := by
+    constructor
+    · intro h
+      by_contra hv
+      exact absurd (mul_nonneg (not_lt.1 hv) (le_of_lt hyq)) (not_le.2 h)
+    · intro h; exact mul_neg_of_neg_of_pos h hyq
+  unfold powVal
+  by_cases hd : e.den = 1
+  · rw [if_pos hd, if_pos hd]
+    have h0' : v * y ^ e.den = 0 ∧ e.num < 0 ↔ v = 0 ∧ e.num < 0 := by rw [h0]
+    by_cases hz : v = 0 ∧ e.num < 0
+    · rw [if_pos hz, if_pos (h0'.2 hz)]
+    · rw [if_neg hz, if_neg (fun h => hz (h0'.1 h)), mul_zpow, hd, pow_one]
+  · rw [if_neg hd, if_neg hd]
+    by_cases hv : v < 0
+    · simp [hv, hneg.2 hv]
+    · have hv' : ¬ v * y ^ e.den < 0 := fun h => hv (hneg.1 h)
+      simp only [hv, hv', if_false]
+      by_cases hz : v = 0
+      · simp only [hz, h0.2 hz, if_true]
+        by_cases hen : e < 0 <;> simp [hen]
+      · have hz' : ¬ v * y ^ e.den = 0 := fun h => hz (h0.1 h)
+        simp only [hz, hz', if_false]
+        have hpos : 0 < v := lt_of_le_of_ne (not_lt.1 hv) (Ne.symm hz)
+        rw [hs hd v y hpos hy]
+
+/-- `UnitValue ** e` -/
+theorem UVal.pow_sim (pyPow : Rat → Rat → Rat) (x : UVal) (e : Rat) (hx : x.u.sys.valid = true)
+    (hs : e.den ≠ 1 → PowScale pyPow e) :
+    Sim (powOp pyPow (.val x) (.num e)) (siPow pyPow (siOf (.val x)) (siOf (.num e))) := by
+  simp only [powOp, UVal.pow, siPow, siOf]
+  cases hr : x.u.raiseto e with
+  | error er =>
+    have hn := (raiseto_dimPow x.u e).2 er hr
+    cases powVal pyPow x.v e <;> cases powVal pyPow x.si e <;> simp [Sim, hn]
+  | ok u' =>
+    have hd := (raiseto_dimPow x.u e).1 u' hr
+    obtain ⟨hsys, h1, h2, h3⟩ := (raiseto_ok_iff x.u e u').1 hr
+    obtain ⟨y, hy, hF, hF'⟩ := siFactor_root hx x.u.dim u'.dim e h1 h2 h3
+    have hv : powVal pyPow x.si e =
+        (match powVal pyPow x.v e with
+         | .error er => .error er
+         | .ok w => .ok (w * y ^ e.num)) := by
+      simp only [UVal.si, hF]
+      exact powVal_scale pyPow x.v e hy hs
+    rw [hv, hd]
+    cases powVal pyPow x.v e with
+    | error er => simp [Sim]
+    | ok w =>
+      simp only [Sim, siOf, UVal.si, Operand.wf, hsys, hF', hx, and_true]
+
+/-- `a ** b` over all operand pairings; `R` restricts the exponents for which the power contract is available -/
+theorem powOp_sim (pyPow : Rat → Rat → Rat) (a b : Operand) (ha : a.wf) (hb : b.wf)
+    (hs : ∀ e, b = .num e → e.den ≠ 1 → PowScale pyPow e) :
+    Sim (powOp pyPow a b) (siPow pyPow (siOf a) (siOf b)) := by
+  cases a with
+  | num m =>
+    cases b with
+    | num e =>
+      simp only [powOp, siPow, siOf]
+      cases powVal pyPow m e <;> simp [Sim, siOf, Operand.wf]
+    | val y => simp [powOp, siPow, siOf, Sim]
+    | arr y => simp [powOp, siPow, siOf, Sim]
+  | val x =>
+    cases b with
+    | num e => exact UVal.pow_sim pyPow x e ha (hs e rfl)
+    | val y => simp [powOp, siPow, siOf, Sim]
+    | arr y => simp [powOp, siPow, siOf, Sim]
+  | arr x => cases b <;> simp [powOp, siPow, siOf, Sim]
+
 /-! ### expression trees -/
 
 def Expr.wf : Expr → Prop
@@ -220,22 +420,27 @@ def Expr.wf : Expr → Prop
   | .abs a => a.wf
   | .inv a => a.wf
 
-/-- what is assumed of `**`: the model's `powOp` agrees with the SI-level `siPow` (proved below for the cases
-that do not need the trusted primitive, and from `PowContract` for the others) -/
-def PowHom (pyPow : Rat → Rat → Rat) : Prop :=
-  ∀ a b : Operand, a.wf → b.wf → Sim (powOp pyPow a b) (siPow pyPow (siOf a) (siOf b))
+/-- every exponent a `**` node of the tree evaluates to that is not an integer has the scaling contract -/
+def Expr.expsOK (pyPow : Rat → Rat → Rat) : Expr → Prop
+  | .leaf _ => True
+  | .bin _ a b => a.expsOK pyPow ∧ b.expsOK pyPow
+  | .pow a b => a.expsOK pyPow ∧ b.expsOK pyPow ∧
+      ∀ n, eval pyPow b = .ok (.num n) → n.den ≠ 1 → PowScale pyPow n
+  | .neg a => a.expsOK pyPow
+  | .abs a => a.expsOK pyPow
+  | .inv a => a.expsOK pyPow
 
 theorem Sim.ok_inv {a : Res Operand} {b : Res SIVal} {r : Operand} (h : Sim a b) (ha : a = .ok r) :
     b = .ok (siOf r) ∧ r.wf := by
   subst ha; exact h
 
-theorem eval_sim (pyPow : Rat → Rat → Rat) (hp : PowHom pyPow) (e : Expr) (he : e.wf) :
+theorem eval_sim (pyPow : Rat → Rat → Rat) (e : Expr) (he : e.wf) (hp : e.expsOK pyPow) :
     Sim (eval pyPow e) (evalSI pyPow e) := by
   induction e with
   | leaf o => exact ⟨rfl, he⟩
   | bin op a b iha ihb =>
-    have ha := iha he.1
-    have hb := ihb he.2
+    have ha := iha he.1 hp.1
+    have hb := ihb he.2 hp.2
     simp only [eval, evalSI]
     cases hea : eval pyPow a with
     | error e => rw [hea] at ha; obtain ⟨e', h'⟩ := ha; simp [Sim, h']
@@ -250,8 +455,8 @@ theorem eval_sim (pyPow : Rat → Rat → Rat) (hp : PowHom pyPow) (e : Expr) (h
         simp only [h1, h2]
         exact binop_sim op x y wx wy
   | pow a b iha ihb =>
-    have ha := iha he.1
-    have hb := ihb he.2
+    have ha := iha he.1 hp.1
+    have hb := ihb he.2 hp.2.1
     simp only [eval, evalSI]
     cases hea : eval pyPow a with
     | error e => rw [hea] at ha; obtain ⟨e', h'⟩ := ha; simp [Sim, h']
@@ -264,9 +469,9 @@ theorem eval_sim (pyPow : Rat → Rat → Rat) (hp : PowHom pyPow) (e : Expr) (h
         rw [heb] at hb
         obtain ⟨h2, wy⟩ := hb
         simp only [h1, h2]
-        exact hp x y wx wy
+        exact powOp_sim pyPow x y wx wy (fun n hn => hp.2.2 n (by rw [heb, hn]))
   | neg a ih =>
-    have ha := ih he
+    have ha := ih he hp
     simp only [eval, evalSI]
     cases hea : eval pyPow a with
     | error e => rw [hea] at ha; obtain ⟨e', h'⟩ := ha; simp [Sim, h']
@@ -277,7 +482,7 @@ theorem eval_sim (pyPow : Rat → Rat → Rat) (hp : PowHom pyPow) (e : Expr) (h
       have := neg_sim x wx
       exact ⟨by rw [this.1], this.2⟩
   | abs a ih =>
-    have ha := ih he
+    have ha := ih he hp
     simp only [eval, evalSI]
     cases hea : eval pyPow a with
     | error e => rw [hea] at ha; obtain ⟨e', h'⟩ := ha; simp [Sim, h']
@@ -288,7 +493,7 @@ theorem eval_sim (pyPow : Rat → Rat → Rat) (hp : PowHom pyPow) (e : Expr) (h
       have := abs_sim x wx
       exact ⟨by rw [this.1], this.2⟩
   | inv a ih =>
-    have ha := ih he
+    have ha := ih he hp
     simp only [eval, evalSI]
     cases hea : eval pyPow a with
     | error e => rw [hea] at ha; obtain ⟨e', h'⟩ := ha; simp [Sim, h']
